@@ -292,3 +292,17 @@ Section World.
 
   Definition run (w : world) (cs : list (bytes * bytes * bytes)) : world := fold_left step cs w.
 End World.
+
+(* ---------- the collection whitelist's admin entry points (used between claims) ---------- *)
+
+(* execute_remove_members by a whitelist admin, one member: NoMemberFound unless present *)
+Definition cwl_remove (c : cwl) (m : bytes) : result cwl :=
+  if mem m (cw_members c)
+  then Ok (mkCwl (cw_airdrop_admin c) (filter (fun x => negb (bytes_eqb x m)) (cw_members c))
+                 (cw_num c - 1) (cw_limit c))
+  else Err.
+(* execute_update_admins: whether the airdrop contract is on the new admin list *)
+Definition cwl_set_airdrop_admin (c : cwl) (b : bool) : cwl :=
+  mkCwl b (cw_members c) (cw_num c) (cw_limit c).
+Definition set_cwl (w : world) (c : cwl) : world :=
+  mkWorld (w_air w) (w_bal w) (w_minter_wl w) (w_cwl_id w) c (w_recv w).
